@@ -60,9 +60,8 @@ ASSUMPTIONS = [
     "xlsx, image formats (png/jpg/...), HDF5 and remote URLs are not driven",
     "a relative file name designates the file below the 'working_directory' option when one is set and below the "
     "current directory otherwise; an absolute name is not affected by the option (documented behaviour of the option)",
-    "'~' names: the loaders accept them, but a rewritten file is served from the memoised loader (signature taken "
-    "without expanding '~'); reported, counted (stale_content_observed_not_raised_home-relative) and not raised "
-    "until the maintainers answer",
+    "a name starting with '~/' designates the file below $HOME (the loaders expand it); it is driven without a "
+    "working directory only",
 ]
 REQUIRED_COUNTERS = [
     "rt_load_image_checked", "rt_load_table_checked", "rt_load_header_checked",
@@ -70,7 +69,7 @@ REQUIRED_COUNTERS = [
     "lcai_checked", "model_load_image_checked", "model_load_charge_checked", "model_pipeline_runs_checked",
     "model_nonoverlap_rejected", "stale_reloads_checked", "stale_rewrites",
     "stale_reloads_absolute", "stale_reloads_cwd-relative", "stale_reloads_workdir-relative",
-    "stale_reloads_workdir-switch", "stale_reloads_workdir-absolute",
+    "stale_reloads_workdir-switch", "stale_reloads_workdir-absolute", "stale_reloads_home-relative",
 ]
 TIMEOUT = {"quick": 600, "thorough": 3000}
 
@@ -868,8 +867,8 @@ def stale_versions(rng, fmt, n_versions):
 # the path, not over one spelling of it.
 NAMINGS = ["absolute", "workdir-relative", "cwd-relative", "workdir-switch",
            "absolute", "workdir-absolute", "workdir-relative", "home-relative"]
-# reported to the maintainers, counted but not raised until answered (see LEVEL_NOTE)
-OBSERVE_ONLY_NAMINGS = {"home-relative"}
+# spellings whose stale content is counted but not raised (none: the '~' finding was fixed by 92de2a2)
+OBSERVE_ONLY_NAMINGS = set()
 
 
 class process_dirs:
@@ -1169,5 +1168,4 @@ LEVEL_TEXT = ("Exploration by runtime monitoring: hundreds (quick) to thousands 
               "and relative to the working_directory option. Held = on the executions observed.")
 LEVEL_NOTE = ("Trusted: numpy.save, astropy.io.fits writers and Python's repr()/%.17g float formatting used to write "
               "the inputs; the 25-line placement oracle; the alignment convention copied from the documentation "
-              "(pixel (0,0) bottom-left). Not driven: same-size rewrites with an unchanged modification time. Observe-only: stale "
-              "content for '~' file names (reported defect of the unchanged tree).")
+              "(pixel (0,0) bottom-left). Not driven: same-size rewrites with an unchanged modification time.")
